@@ -252,3 +252,32 @@ def run(ck):
     ck.ob('C25.claim', 'C25.claim/unlist-before-rekey', not late, hr_.loc(late[0][0]) if late else hr_.loc(),
           'handle_register calls remove_registration(session) before it overwrites session->peer_id / peer_hex, so a session is listed under one id only',
           late[0][1] if late else None)
+
+    # ---- while the connector's 32 identity bytes are outstanding nothing is parsed as a command line ------------------------------------
+    from sa.match import holds as _h25
+    pp = P.fn(R + 'process_protocol')
+    ck.touch(pp)
+    hl = [i for i in pp.walk() if pp.nodes[i].get('callee') == R + 'handle_line']
+    finds = [i for i in pp.walk() if (pp.nodes[i].get('callee') or '').endswith('::find') and any(pp.nodes[j]['k'] == 'CharacterLiteral' for j in pp.walk(i))]
+
+    def not_awaiting(fact):
+        h = _h25(pp, fact)
+        if h is None:
+            return False
+        a_, op_, b_ = h
+        return op_ == '!=' and any((pp.nodes[pp.strip(x)].get('m') or '').endswith('ClientSession::state') for x in (a_, b_)) and \
+            any((pp.nodes[pp.strip(x)].get('q') or '').endswith('SessionState::AwaitingIdentity') for x in (a_, b_))
+    ck.floor('C25.forward', 'line-parsing steps in process_protocol', len(hl) + len(finds), 2)
+    fails25, _ = gate_check(pp, [('handle_line', i) for i in hl] + [('newline search', i) for i in finds], [('state != AwaitingIdentity', not_awaiting)])
+    ck.ob('C25.forward', 'C25.forward/no-line-parsing-while-awaiting-identity', not fails25, pp.loc(fails25[0][2]) if fails25 else pp.loc(),
+          'process_protocol searches for a newline / dispatches a command line only when the session is not AwaitingIdentity (a partial identity '
+          'containing 0x0A must wait for its remaining bytes, not be cut up as a command)', fails25[0][3] if fails25 else None)
+
+    # ---- relayed bytes keep their order: everything for a session goes through its write_buffer, which only handle_write drains --------------
+    qb = P.fn(R + 'queue_binary')
+    ck.touch(qb)
+    direct = [(f, i) for f in P.fns if f.q.startswith(R) and f.q != R + 'handle_write' for i in f.walk() if (f.nodes[i].get('callee') or '') in ('send', '::send', 'write', '::write', 'sendmsg', 'writev')]
+    app = [i for i in qb.walk() if (qb.nodes[i].get('callee') or '').endswith('::append')]
+    ck.ob('C25.forward', 'C25.forward/single-writer-path', not direct and len(app) == 1, direct[0][0].loc(direct[0][1]) if direct else qb.loc(),
+          'only handle_write sends on a client socket; queue_binary appends to the session write_buffer (a direct send from the queueing side '
+          'overtakes bytes still buffered)' + ('' if not direct else ' — send in %s' % direct[0][0].name))
